@@ -37,7 +37,8 @@ def getv(t, k):
         return t.parent.id if t.parent else None
     if k in ('estimate', 'spent'):
         return getattr(t, k)
-    return t.to_dict().get(k)
+    v = getattr(t, k, None)
+    return None if callable(v) else v
 
 
 def ref(t, k, v):
